@@ -37,6 +37,7 @@ var exoticLeaves = []string{
 	"struct{ error }", "struct{ E error }", "sync.Mutex", "*sync.Mutex", "atomic.Int64", "[2][2]int", "map[[2]int][]R",
 	// named types that refer to themselves without a struct in between
 	"SL", "SL2", "SM", "SM2", "SP", "SP2", "SA", "SLP", "SLP2", "SF", "SC", "SI", "MA", "MB", "GR[int]", "struct{ L SL; M SM }",
+	"struct{ A Inner; B Inner }", "struct{ A R; B R; C *R }", "struct{ A G[int]; B G[int] }",
 }
 
 const exoticPrelude = `
